@@ -147,6 +147,12 @@ macro_rules! acc_type {
                         let mut buf = Al([S::fb(!a4[0].tb()); 12]);
                         let off = k % 4;
                         buf.0[off..off + N].copy_from_slice(&an);
+                        // every other case: an exactly sized heap allocation instead (under AddressSanitizer a read of a whole
+                        // register from a three-element slice is then an error rather than a read of a neighbour)
+                        if (k / 4) % 2 == 1 {
+                            let exact: Box<[S]> = an.to_vec().into_boxed_slice();
+                            return (V::from_slice(std::hint::black_box(&exact[..])), model);
+                        }
                         // black_box: the load has to be a real one from an address the optimiser knows nothing about
                         return (V::from_slice(std::hint::black_box(&buf.0[off..off + N + (k / 4).min(3)])), model);
                     }
@@ -230,6 +236,17 @@ macro_rules! acc_type {
                         }
                         let mut a = [S::default(); N];
                         a.copy_from_slice(&buf[..N]);
+                        // ... and into an exactly sized heap allocation (sanitizer builds see a store or a read-modify-write
+                        // that reaches past the N elements)
+                        {
+                            let mut exact: Box<[S]> = vec![sentinel; N].into_boxed_slice();
+                            v.write_to_slice(std::hint::black_box(&mut exact[..]));
+                            for i in 0..N {
+                                if exact[i].tb() != a[i].tb() {
+                                    return Err(format!("write_to_slice into an exactly sized heap slice gives {:?} in element {i}, {:?} into a stack slice", exact[i], a[i]));
+                                }
+                            }
+                        }
                         // the same read into the head of a longer destination: the first N elements, the rest untouched
                         let mut long = [sentinel; N + 3];
                         let r = vcore::catch(move || {
